@@ -56,9 +56,9 @@ type Extractor struct {
 	Order       []string
 	seq         int
 	loops       map[*ssa.Function]map[*ssa.BasicBlock]bool
-	sinkOfField map[string]string // output buffer field -> name of the sink that appends to it
+	sinkOfField map[string]string     // output buffer field -> name of the sink that appends to it
 	adders      map[*ssa.Function]int // methods of a buffer type that append what they are handed (1: one line, 2: a list)
-	EndSink     string            // the sink whose buffer the dump places last (end-of-script lines)
+	EndSink     string                // the sink whose buffer the dump places last (end-of-script lines)
 }
 
 // NewExtractor finds the converter type of a back end (the type whose pointer
